@@ -30,7 +30,7 @@ class ExportConfigRust(ExportConfig):
     
     def _parse_scalar(self, param, value):
         if isinstance(param, StringType):
-            value = f"\"{value}\""
+            value = f"\"{self._escape(value)}\""
         elif isinstance(param, BooleanType):
             value = "true" if value else "false"
         elif isinstance(param, IntegerType):
